@@ -68,52 +68,62 @@ package evaluator
 
 //@ func (e *Evaluator) evalStatments(statements []parser.Node) (r value, err error)
 //@   props C10 C14
+//@   requires storeOK()
 //@   requires forall(i, int, 0 <= i && i < len(statements) ==> statements[i] != nil && wf(statements[i]))
 //@   ensures[C10 scope-restored] e.scope == old(e.scope)
 //@   ensures[C10 signal] err == nil && r != nil ==> is(r, *returnVal) || is(r, *breakVal)
 //@   ensures[C02 error-no-value] err != nil ==> r == nil
+//@   ensures[C02 store] storeOK()
 //@   modifies allbut evalFrame
 //@   propagates (*Evaluator).eval
-//@   loop 1 invariant e.scope == old(e.scope) && pending() == nil
+//@   loop 1 invariant e.scope == old(e.scope) && pending() == nil && storeOK()
 
 //@ func (e *Evaluator) evalBlockStatment(block *parser.BlockStatement) (r value, err error)
 //@   props C10 C14
+//@   requires storeOK()
 //@   requires wf(parser.Node(block))
 //@   ensures[C10 scope-restored] e.scope == old(e.scope)
 //@   ensures[C10 signal] err == nil && r != nil ==> is(r, *returnVal) || is(r, *breakVal)
 //@   ensures[C02 error-no-value] err != nil ==> r == nil
+//@   ensures[C02 store] storeOK()
 //@   modifies allbut evalFrame
 //@   propagates (*Evaluator).evalStatments
 
 //@ func (e *Evaluator) evalConditionalBlock(condBlock *parser.ConditionalBlock) (r value, ok bool, err error)
 //@   props C10 C14
+//@   requires storeOK()
 //@   requires condBlock != nil && condBlock.Condition != nil && wf(condBlock.Condition) && condBlock.Block != nil && wf(parser.Node(condBlock.Block))
 //@   ensures[C10 scope-restored] e.scope == old(e.scope)
 //@   ensures[C02 error-no-value] err != nil ==> r == nil
 //@   ensures[C10 condition-first] ncalls("(*Evaluator).eval") >= 1 ==> callarg("(*Evaluator).eval", 1, 1) == condBlock.Condition
 //@   ensures[C10 block-iff-true] ok ==> ncalls("(*Evaluator).eval") == 2 && callarg("(*Evaluator).eval", 2, 1) == parser.Node(condBlock.Block) && is(callres("(*Evaluator).eval", 1, 0), *boolVal) && callres("(*Evaluator).eval", 1, 0).(*boolVal).V
 //@   ensures[C10 no-block-if-false] !ok ==> ncalls("(*Evaluator).eval") <= 1
+//@   ensures[C02 store] storeOK()
 //@   modifies allbut evalFrame
 //@   propagates (*Evaluator).eval
 
 //@ func (e *Evaluator) evalIf(i *parser.IfStmt) (r value, err error)
 //@   props C10 C14
+//@   requires storeOK()
 //@   requires wf(parser.Node(i))
 //@   ensures[C10 scope-restored] e.scope == old(e.scope)
 //@   ensures[C02 error-no-value] err != nil ==> r == nil
+//@   ensures[C02 store] storeOK()
 //@   modifies allbut evalFrame
 //@   propagates (*Evaluator).eval (*Evaluator).evalConditionalBlock
-//@   loop 1 invariant e.scope == old(e.scope) && pending() == nil
+//@   loop 1 invariant e.scope == old(e.scope) && pending() == nil && storeOK()
 
 //@ func (e *Evaluator) evalWhile(w *parser.WhileStmt) (r value, err error)
 //@   props C10 C14
+//@   requires storeOK()
 //@   requires wf(parser.Node(w))
 //@   ensures[C10 scope-restored] e.scope == old(e.scope)
 //@   ensures[C10 break-stays-inside] !is(r, *breakVal)
 //@   ensures[C02 error-no-value] err != nil ==> r == nil
+//@   ensures[C02 store] storeOK()
 //@   modifies allbut evalFrame
 //@   propagates (*Evaluator).evalConditionalBlock
-//@   loop 1 invariant e.scope == old(e.scope) && (err != nil ==> val == nil) && pending() == err
+//@   loop 1 invariant e.scope == old(e.scope) && (err != nil ==> val == nil) && pending() == err && storeOK()
 
 //@ func (e *Evaluator) evalDecl(decl *parser.Decl) (err error)
 //@   props C10 C14 C09 C02
@@ -170,3 +180,149 @@ package evaluator
 //@   propagates (*Evaluator).eval
 //@   loop 1 invariant e.scope == old(e.scope) && pending() == nil && storeOK() && fresh(result) && len(result) == len(terms) && off(result) == 0 && -1 <= rangeindex && rangeindex < len(terms)
 //@   loop 1 invariant forall(i, int, 0 <= i && i <= rangeindex ==> okValue(result[i]))
+
+// ---- expressions (docs/spec.md, Operators and Expressions) ----
+// kind(n): static type kind of expression n as assigned by the parser (1 num, 2 string, 3 bool, 4 any, 5 array, 6 map).
+//@ pure kind(n parser.Node) int
+//@ pure valKind(x value) int = ite(is(x, *numVal), 1, ite(is(x, *stringVal), 2, ite(is(x, *boolVal), 3, ite(is(x, *anyVal), 4, ite(is(x, *arrayVal), 5, ite(is(x, *mapVal), 6, 0))))))
+// Typing facts the parser establishes (docs/spec.md operator table and index rules), assumed of every tree:
+//@ global forall(b, *parser.BinaryExpression, wf(parser.Node(b)) ==> kind(b.Left) == kind(b.Right) || (kind(b.Left) == 5 && b.Op == parser.OP_ASTERISK && kind(b.Right) == 1))
+//@ global forall(x, *parser.IndexExpression, wf(parser.Node(x)) ==> (kind(x.Left) == 6 ==> kind(x.Index) == 2) && (kind(x.Left) == 5 || kind(x.Left) == 2 ==> kind(x.Index) == 1))
+//@ global forall(x, *parser.SliceExpression, wf(parser.Node(x)) ==> (x.Start != nil ==> kind(x.Start) == 1) && (x.End != nil ==> kind(x.End) == 1))
+
+//@ iface (v value) Equals(o value) (r bool)
+//@   trusted
+//@   modifies nothing
+
+//@ func canShortCircuit(op parser.Operator, left value) (r bool)
+//@   props C01
+//@   ensures[C01 short-circuit] r == ((op == parser.OP_AND && is(left, *boolVal) && !left.(*boolVal).V) || (op == parser.OP_OR && is(left, *boolVal) && left.(*boolVal).V))
+//@   modifies nothing
+//@   requires is(left, *boolVal) ==> left.(*boolVal) != nil
+
+//@ func evalBinaryNumExpr(op parser.Operator, left *numVal, right *numVal) (r value, err error)
+//@   props C01 C02
+//@   requires left != nil && right != nil
+//@   let a = left.V
+//@   let b = right.V
+//@   ensures[C01 plus] op == parser.OP_PLUS ==> err == nil && is(r, *numVal) && same(r.(*numVal).V, a + b)
+//@   ensures[C01 minus] op == parser.OP_MINUS ==> err == nil && is(r, *numVal) && same(r.(*numVal).V, a - b)
+//@   ensures[C01 times] op == parser.OP_ASTERISK ==> err == nil && is(r, *numVal) && same(r.(*numVal).V, a * b)
+//@   ensures[C01 divide] op == parser.OP_SLASH ==> err == nil && is(r, *numVal) && same(r.(*numVal).V, a / b)
+//@   ensures[C01 modulo] op == parser.OP_PERCENT ==> err == nil && is(r, *numVal) && same(r.(*numVal).V, math.Mod(a, b))
+//@   ensures[C01 gt] op == parser.OP_GT ==> err == nil && is(r, *boolVal) && r.(*boolVal).V == (a > b)
+//@   ensures[C01 lt] op == parser.OP_LT ==> err == nil && is(r, *boolVal) && r.(*boolVal).V == (a < b)
+//@   ensures[C01 gteq] op == parser.OP_GTEQ ==> err == nil && is(r, *boolVal) && r.(*boolVal).V == (a >= b)
+//@   ensures[C01 lteq] op == parser.OP_LTEQ ==> err == nil && is(r, *boolVal) && r.(*boolVal).V == (a <= b)
+//@   ensures[C02 fresh-value] err == nil ==> fresh(r) && okValue(r)
+//@   ensures[C02 other-ops] op != parser.OP_PLUS && op != parser.OP_MINUS && op != parser.OP_ASTERISK && op != parser.OP_SLASH && op != parser.OP_PERCENT && op != parser.OP_GT && op != parser.OP_LT && op != parser.OP_GTEQ && op != parser.OP_LTEQ ==> r == nil && wraps(err, ErrOperation)
+//@   mustfail ensures[C01 canary] op == parser.OP_MINUS ==> same(r.(*numVal).V, b - a)
+//@   modifies nothing
+
+//@ func evalBinaryStringExpr(op parser.Operator, left *stringVal, right *stringVal) (r value, err error)
+//@   props C01 C02
+//@   requires left != nil && right != nil
+//@   let a = left.V
+//@   let b = right.V
+//@   ensures[C01 concat] op == parser.OP_PLUS ==> err == nil && is(r, *stringVal) && r.(*stringVal).V == concat(a, b)
+//@   ensures[C01 gt] op == parser.OP_GT ==> err == nil && is(r, *boolVal) && r.(*boolVal).V == strlt(b, a)
+//@   ensures[C01 lt] op == parser.OP_LT ==> err == nil && is(r, *boolVal) && r.(*boolVal).V == strlt(a, b)
+//@   ensures[C01 gteq] op == parser.OP_GTEQ ==> err == nil && is(r, *boolVal) && r.(*boolVal).V == !strlt(a, b)
+//@   ensures[C01 lteq] op == parser.OP_LTEQ ==> err == nil && is(r, *boolVal) && r.(*boolVal).V == !strlt(b, a)
+//@   ensures[C02 fresh-value] err == nil ==> fresh(r) && okValue(r)
+//@   ensures[C02 other-ops] op != parser.OP_PLUS && op != parser.OP_GT && op != parser.OP_LT && op != parser.OP_GTEQ && op != parser.OP_LTEQ ==> r == nil && wraps(err, ErrOperation)
+//@   modifies nothing
+
+//@ func evalBinaryBoolExpr(op parser.Operator, left *boolVal, right *boolVal) (r value, err error)
+//@   props C01 C02
+//@   requires left != nil && right != nil
+//@   ensures[C01 and] op == parser.OP_AND ==> err == nil && is(r, *boolVal) && r.(*boolVal).V == (left.V && right.V)
+//@   ensures[C01 or] op == parser.OP_OR ==> err == nil && is(r, *boolVal) && r.(*boolVal).V == (left.V || right.V)
+//@   ensures[C02 fresh-value] err == nil ==> fresh(r) && okValue(r)
+//@   ensures[C02 other-ops] op != parser.OP_AND && op != parser.OP_OR ==> r == nil && wraps(err, ErrOperation)
+//@   modifies nothing
+
+//@ func (e *Evaluator) evalUnaryExpr(expr *parser.UnaryExpression) (r value, err error)
+//@   props C01 C02 C10 C14
+//@   requires wf(parser.Node(expr)) && storeOK()
+//@   let v = callres("(*Evaluator).eval", 1, 0)
+//@   ensures[C02 store] storeOK()
+//@   ensures[C10 scope-restored] e.scope == old(e.scope)
+//@   ensures[C01 operand] ncalls("(*Evaluator).eval") == 1 && callarg("(*Evaluator).eval", 1, 1) == expr.Right
+//@   ensures[C01 negate] err == nil && expr.Op == parser.OP_MINUS ==> is(v, *numVal) && is(r, *numVal) && same(r.(*numVal).V, -v.(*numVal).V)
+//@   ensures[C01 not] err == nil && expr.Op == parser.OP_BANG ==> is(v, *boolVal) && is(r, *boolVal) && r.(*boolVal).V == !v.(*boolVal).V
+//@   ensures[C02 fresh-value] err == nil ==> fresh(r) && okValue(r) && (expr.Op == parser.OP_MINUS || expr.Op == parser.OP_BANG)
+//@   ensures[C02 error-no-value] err != nil ==> r == nil
+//@   modifies allbut evalFrame
+//@   propagates (*Evaluator).eval
+
+//@ func (a *arrayVal) Copy() (r *arrayVal)
+//@   props C09 C01 C02
+//@   let re = *r.Elements
+//@   ensures[C09 fresh] fresh(r) && fresh(r.Elements) && fresh(re) && off(re) == 0 && len(re) == len(*a.Elements) && cap(re) == len(re)
+//@   ensures[C09 elements] forall(j, int, 0 <= j && j < len(re) ==> copyRel(re[j], (*a.Elements)[j]) && okValue(re[j]))
+//@   ensures[C09 elements-fresh] forall(j, int, 0 <= j && j < len(re) && !isComposite((*a.Elements)[j]) ==> fresh(re[j]))
+//@   modifies nothing
+//@   loop 1 invariant -1 <= rangeindex && rangeindex < len(*a.Elements) && fresh(elements) && off(elements) == 0 && len(elements) == len(*a.Elements) && cap(elements) == len(elements)
+//@   loop 1 invariant forall(j, int, 0 <= j && j <= rangeindex ==> copyRel(elements[j], (*a.Elements)[j]) && okValue(elements[j]))
+//@   loop 1 invariant forall(j, int, 0 <= j && j <= rangeindex && !isComposite((*a.Elements)[j]) ==> fresh(elements[j]))
+//@   loop 1 modifies elements[*]
+//@   loop 1 decreases len(*a.Elements) - rangeindex
+
+//@ func (e *Evaluator) evalBinaryExpr(expr *parser.BinaryExpression) (r value, err error)
+//@   props C01 C02 C10 C14
+//@   requires wf(parser.Node(expr)) && storeOK()
+//@   let lv = callres("(*Evaluator).eval", 1, 0)
+//@   let rv = ite(ncalls("(*Evaluator).eval") == 2, callres("(*Evaluator).eval", 2, 0), lv)
+//@   let op = expr.Op
+//@   ensures[C02 store] storeOK()
+//@   ensures[C10 scope-restored] e.scope == old(e.scope)
+//@   ensures[C01 left-first] ncalls("(*Evaluator).eval") >= 1 && callarg("(*Evaluator).eval", 1, 1) == expr.Left && ncalls("(*Evaluator).eval") <= 2
+//@   ensures[C01 right-second] ncalls("(*Evaluator).eval") == 2 ==> callarg("(*Evaluator).eval", 2, 1) == expr.Right
+//@   ensures[C01 short-circuit] err == nil ==> ((ncalls("(*Evaluator).eval") == 1) == ((op == parser.OP_AND && is(lv, *boolVal) && !lv.(*boolVal).V) || (op == parser.OP_OR && is(lv, *boolVal) && lv.(*boolVal).V)))
+//@   ensures[C01 equal] err == nil && op == parser.OP_EQ ==> is(r, *boolVal) && ncalls("(value).Equals") == 1 && callarg("(value).Equals", 1, 0) == lv && callarg("(value).Equals", 1, 1) == rv && r.(*boolVal).V == callres("(value).Equals", 1, 0).(bool)
+//@   ensures[C01 not-equal] err == nil && op == parser.OP_NOT_EQ ==> is(r, *boolVal) && ncalls("(value).Equals") == 1 && callarg("(value).Equals", 1, 0) == lv && callarg("(value).Equals", 1, 1) == rv && r.(*boolVal).V == !callres("(value).Equals", 1, 0).(bool)
+//@   ensures[C01 num] err == nil && op != parser.OP_EQ && op != parser.OP_NOT_EQ && is(lv, *numVal) ==> ncalls("evalBinaryNumExpr") == 1 && r == callres("evalBinaryNumExpr", 1, 0) && callarg("evalBinaryNumExpr", 1, 0).(parser.Operator) == op && callarg("evalBinaryNumExpr", 1, 1).(*numVal) == lv.(*numVal) && callarg("evalBinaryNumExpr", 1, 2).(*numVal) == rv.(*numVal)
+//@   ensures[C01 string] err == nil && op != parser.OP_EQ && op != parser.OP_NOT_EQ && is(lv, *stringVal) ==> ncalls("evalBinaryStringExpr") == 1 && r == callres("evalBinaryStringExpr", 1, 0) && callarg("evalBinaryStringExpr", 1, 1).(*stringVal) == lv.(*stringVal) && callarg("evalBinaryStringExpr", 1, 2).(*stringVal) == rv.(*stringVal)
+//@   ensures[C01 bool] err == nil && op != parser.OP_EQ && op != parser.OP_NOT_EQ && is(lv, *boolVal) ==> ncalls("evalBinaryBoolExpr") == 1 && r == callres("evalBinaryBoolExpr", 1, 0) && callarg("evalBinaryBoolExpr", 1, 1).(*boolVal) == lv.(*boolVal) && callarg("evalBinaryBoolExpr", 1, 2).(*boolVal) == rv.(*boolVal)
+//@   ensures[C02 value] err == nil ==> okValue(r)
+//@   ensures[C02 error-no-value] err != nil ==> r == nil
+//@   modifies allbut evalFrame
+//@   propagates (*Evaluator).eval
+
+//@ func deepCopy(val value) (r value)
+//@   props C09 C02
+//@   requires okValue(val) && storeOK()
+//@   ensures[C09 fresh] fresh(r) && valKind(r) == valKind(val) && okValue(r)
+//@   ensures[C09 basic] copyRel1(r, val) || isComposite(val) || is(val, *anyVal)
+//@   ensures[C09 array] is(val, *arrayVal) ==> fresh(r.(*arrayVal).Elements) && fresh(*r.(*arrayVal).Elements) && off(*r.(*arrayVal).Elements) == 0 && len(*r.(*arrayVal).Elements) == len(*val.(*arrayVal).Elements) && forall(j, int, 0 <= j && j < len(*r.(*arrayVal).Elements) ==> fresh((*r.(*arrayVal).Elements)[j]) && okValue((*r.(*arrayVal).Elements)[j]))
+//@   ensures[C02 store] storeOK()
+//@   mustfail ensures[C09 canary] r == val
+//@   modifies nothing
+//@   loop 1 invariant -1 <= rangeindex && rangeindex < len(*v.Elements) && fresh(elements) && off(elements) == 0 && len(elements) == len(*v.Elements) && storeOK()
+//@   loop 1 invariant forall(j, int, 0 <= j && j <= rangeindex ==> fresh(elements[j]) && okValue(elements[j]))
+//@   loop 1 modifies elements[*]
+//@   loop 2 invariant -1 <= rangeindex && storeOK() && fresh(mapCopy.Pairs) && fresh(mapCopy.Order) && forall(k, string, has(mapCopy.Pairs, k) ==> okValue(mapCopy.Pairs[k]))
+//@   loop 2 modifies mapCopy.Pairs[*]
+
+//@ func evalBinaryArrayExpr(op parser.Operator, left *arrayVal, right value) (r value, err error)
+//@   props C01 C09 C02
+//@   requires left != nil && storeOK()
+//@   requires op == parser.OP_PLUS ==> is(right, *arrayVal) && ref(right) != 0
+//@   requires op == parser.OP_ASTERISK ==> is(right, *numVal) && ref(right) != 0
+//@   let n = len(*left.Elements)
+//@   let re = *r.(*arrayVal).Elements
+//@   let rr = *right.(*arrayVal).Elements
+//@   let cv = right.(*numVal).V
+//@   ensures[C01 C09 concat] op == parser.OP_PLUS ==> err == nil && is(r, *arrayVal) && fresh(r) && fresh(re) && len(re) == n+len(rr)
+//@   ensures[C01 C09 concat-left] op == parser.OP_PLUS ==> forall(j, int, 0 <= j && j < n ==> copyRel(re[j], (*left.Elements)[j]))
+//@   ensures[C01 C09 concat-right] op == parser.OP_PLUS ==> forall(j, int, 0 <= j && j < len(rr) ==> copyRel(re[n+j], rr[j]))
+//@   ensures[C01 bad-count] op == parser.OP_ASTERISK && (!same(float(int(cv)), cv) && float(int(cv)) != cv || int(cv) < 0) ==> r == nil && wraps(err, ErrBadRepetition)
+//@   ensures[C01 C09 repeat] op == parser.OP_ASTERISK && err == nil ==> is(r, *arrayVal) && fresh(r) && fresh(re) && len(re) == n*int(cv) && forall(j, int, 0 <= j && j < len(re) ==> fresh(re[j]))
+//@   ensures[C02 value] err == nil ==> okValue(r)
+//@   ensures[C02 other-ops] op != parser.OP_PLUS && op != parser.OP_ASTERISK ==> r == nil && wraps(err, ErrOperation)
+//@   ensures[C02 store] storeOK()
+//@   modifies nothing
+//@   loop 1 modifies newElements, newElements[*]
+//@   loop 1 invariant 0 <= rangeint_iter && rangeint_iter < repetitions && fresh(newElements) && len(newElements) == len(*left.Elements)*rangeint_iter && storeOK()
+//@   loop 1 invariant forall(j, int, 0 <= j && j < len(newElements) ==> fresh(newElements[j]) && okValue(newElements[j]))
